@@ -29,7 +29,7 @@ OTHER_DIR = "/SIMFS/othercache"
 RES_FAULTS = ("NOTFOUND", "ERR_BEFORE", "ERR_MID", "ERR_AFTER", "RET_FALSE_BEFORE", "RET_FALSE_MID", "INTERRUPT_MID",
               "ERR_STOPITER", "NOTFOUND_MID")
 NET_FAULTS = ("HTTP_404", "HTTP_5XX", "CONN_ERR", "TIMEOUT", "HTTP_DROP_MID")
-FS_FAULTS = ("EIO", "ENOSPC", "SHORT_WRITE", "EMFILE", "SRC_MISSING", "RENAME_EIO", "DISK_FULL")
+FS_FAULTS = ("EIO", "ENOSPC", "SHORT_WRITE", "EMFILE", "SRC_MISSING", "RENAME_EIO", "DISK_FULL", "UNLINK_EACCES")
 PP_FAULTS = ("PP_ERR_BEFORE", "PP_ERR_MID", "PP_ERR_AFTER", "PP_INTERRUPT_MID", "PP_NOTFOUND", "PP_NOTFOUND_AFTER")
 VAL_FAULTS = ("VALIDATE_FALSE", "VALIDATE_IOERROR", "VALIDATE_RAISE")
 ALL_FAULTS = RES_FAULTS + NET_FAULTS + FS_FAULTS + PP_FAULTS + VAL_FAULTS
@@ -236,7 +236,7 @@ class RunDirector(Director):
                         continue
                     if f["kind"] == "SRC_MISSING":
                         continue
-                    want_kind = {"EMFILE": "open", "RENAME_EIO": "rename"}.get(f["kind"], "write")
+                    want_kind = {"EMFILE": "open", "RENAME_EIO": "rename", "UNLINK_EACCES": "unlink"}.get(f["kind"], "write")
                     if kind != want_kind or f.get("key") != key or f.get("nth", 0) != nth:
                         continue
                     if want_kind == "open" and not mut:
@@ -251,6 +251,10 @@ class RunDirector(Director):
                         action = ("raise", OSError(errno.EMFILE, "Too many open files (injected)", path))
                     elif f["kind"] == "RENAME_EIO":
                         action = ("raise", OSError(errno.EIO, "Input/output error (injected, rename)", path))
+                    elif f["kind"] == "UNLINK_EACCES":
+                        # the operating system refuses to delete a file (EACCES/EPERM/EBUSY: an immutable flag, a
+                        # sharing violation, an NFS hiccup) - an error return, the process lives on
+                        action = ("raise", PermissionError(errno.EACCES, "Permission denied (injected, unlink)", path))
                     else:
                         action = ("short", max(0, int(f.get("frac", 0.5) * n)))
                     break
